@@ -32,6 +32,7 @@ type recorder struct {
 	cancel       context.CancelFunc
 	cancelReturn time.Duration // what the observer returns for the cancelling wait
 	shrink       time.Duration // what it returns otherwise
+	real         bool          // leave the computed wait in place (the sequence really sleeps)
 }
 
 var curRec atomic.Pointer[recorder]
@@ -69,6 +70,9 @@ func installObserver() {
 		if rec.cancelAtWait == len(rec.waits) && rec.cancel != nil {
 			rec.cancel()
 			return rec.cancelReturn
+		}
+		if rec.real {
+			return d
 		}
 		return rec.shrink
 	})
